@@ -245,6 +245,22 @@ def _finish(ctx, fs, expect_opened=None, opened=None, allowed_writes=(), what=""
             ctx.res["errors"].append(f"{what}: replay failed: {detail} replay={path}")
     else:
         ctx.res["discharged"] += 1
+        desc = ctx.scenario.build(None) if ctx.scenario else {}
+        if desc.get("entry") == "paths" and desc.get("params", {}).get("kind") == "hdd" and ctx.res["witnesses"] < 6:
+            # witness: the same file-system configuration in a real temporary directory, real HDD code, open modes recorded
+            from symx import replay
+
+            desc.update(property=ctx.prop, harness=ctx.harness, why="witness")
+            desc["fs_exists"] = sorted(k for k, v in fs.exists_vars.items() if _truth(ctx, v)) + sorted(fs.always)
+            verdict, detail = replay.run_replay(desc)
+            if verdict == "ok":
+                ctx.res["witnesses"] += 1
+                if len(ctx.res["samples"]) < 2:
+                    ctx.res["samples"].append(dict(exists=desc["fs_exists"], outcome=detail[:120]))
+            elif verdict == "violation":
+                path = ctx._save(desc, "witness")
+                ctx.res["violations"].append(dict(what=what + ": real run opens a file for writing or changes it", replay=path,
+                                                  detail=detail, vars=dict(exists=desc["fs_exists"])))
 
 
 def _truth(ctx, sb):
